@@ -752,7 +752,7 @@ impl<'a> Gen<'a> {
             }
             29 | 30 => {
                 // long values
-                let big = *self.rng.pick(&[95u32, 96, 97, 255, 256, 257, 512, 1000]);
+                let big = *self.rng.pick(&[95u32, 96, 97, 255, 256, 257, 512, 1000, 31, 33, 40, 64]);
                 self.ptr_loc(p, 0);
                 self.emit(op::movi(l, big));
                 if self.rng.bool() {
@@ -760,6 +760,16 @@ impl<'a> Gen<'a> {
                 } else {
                     self.emit(op::not(o, ZERO));
                     self.emit(op::supd(k, p, o, l));
+                }
+                // the legacy (32-byte slot) instructions on the value just written: a slot
+                // that is not exactly 32 bytes long must be refused by them
+                match self.rng.below(4) {
+                    0 => {
+                        self.emit(op::movi(l, 1));
+                        self.emit(op::srwq(d, s, k, l));
+                    }
+                    1 => self.emit(op::srw(v, s, k, 0)),
+                    _ => {}
                 }
             }
             31 => {
@@ -792,6 +802,29 @@ impl<'a> Gen<'a> {
                 self.emit(op::subi(p, HP, 40));
                 self.emit(op::movi(l, 1 + self.rng.below(3) as u32));
                 self.emit(op::swwq(k, s, p, l));
+            }
+            36 | 37 => {
+                // a read of an absent slot directly followed by a dynamic read of a present
+                // one, every operand staged beforehand so that no instruction in between
+                // clears `$err`: the second read must report "present"
+                let n = len.clamp(1, 200);
+                self.emit(op::movi(l, n));
+                self.emit(op::swrd(k, p, l));
+                let absent: [u8; 32] = self.rng.arr();
+                let aoff = self.data(&absent);
+                self.ptr_data(o, aoff);
+                self.emit(op::movi(l, n.min(8)));
+                if self.rng.bool() {
+                    self.emit(op::spld(v, o));
+                } else {
+                    self.emit(op::srdi(d, o, ZERO, 0));
+                }
+                if self.rng.bool() {
+                    self.emit(op::srdd(d, k, ZERO, l));
+                } else {
+                    self.emit(op::srdi(d, k, ZERO, n.min(8) as u8));
+                }
+                self.emit(op::log(8, l, ZERO, ZERO));
             }
             _ => {
                 self.emit(op::spld(v, k));
